@@ -179,4 +179,14 @@ func (v verifWAL) Write(p []byte) (int, error) {
 func (v verifWAL) Close() error { return v.f.Close() }
 func (v verifWAL) Sync() error  { return v.f.Sync() }
 
-func verifWALFile(f *os.File) readWriteSyncCloser { return verifWAL{f} }
+// VerifWrapWAL switches the wrapping on for logs opened while it is set. Off by
+// default: the wrapper changes the dynamic type of the log handle, which code
+// under test may depend on (a type assertion to *os.File).
+var VerifWrapWAL bool
+
+func verifWALFile(f *os.File) readWriteSyncCloser {
+	if VerifWrapWAL {
+		return verifWAL{f}
+	}
+	return f
+}
